@@ -15,10 +15,16 @@ namespace etl {
 template <typename M, typename N>
 [[nodiscard]] constexpr auto gcd(M m, N n) noexcept -> etl::common_type_t<M, N>
 {
-    if (n == 0) {
-        return m;
+    using R = etl::common_type_t<M, N>;
+
+    auto a = static_cast<R>(m);
+    auto b = static_cast<R>(n);
+    while (b != 0) {
+        auto const t = static_cast<R>(a % b);
+        a            = b;
+        b            = t;
     }
-    return gcd<M, N>(n, m % n);
+    return a;
 }
 
 } // namespace etl
